@@ -893,6 +893,8 @@ def check(ctx: Ctx) -> None:
     check_keepalive(ctx, 'R20.5')
     check_worker_escalation(ctx)
     check_ownership(ctx)
+    from . import _extra
+    _extra.check_activity_accumulates(ctx, 'R20.8')
 
 
 SPEC = PropSpec(
